@@ -157,3 +157,20 @@ theorem C02_redact (rt : Rt) (mk : Nat → Option String → J → String)
         .ok (header, Tn.project (notRedacted Tn R)) :=
   redact_verify_issued rt mk paths addr ms Tn ds decoys jwt header strs R policy wf hplain hk1 hk2 hp h
     hne hdec hsig hstr hnd hall hj hs
+
+/-- `Holder::presentation` and `Holder::build` are the functions `C02_redact` speaks about: given
+that reading the claims segment without verification yields the payload the JWT library returns,
+`Holder::presentation` of the issued token has the path list of `Holder::verify`, and
+`Holder::build` after `redact(R)` emits exactly `jwt~kept…~` with `kept = keptDisclosures ps R`. -/
+theorem C02_presentation_build (rt : Rt) (jwt : String) (strs : List String) (header payload c : J)
+    (ps : List PathEntry) (R : List String) (a b sig : List Char) (nonce : String) (now : Int)
+    (hj : '~' ∉ jwt.toList) (hs : ∀ s ∈ strs, '~' ∉ s.toList)
+    (hseg : splitOn '.' jwt.toList = [a, b, sig])
+    (hclaims : rt.decodeClaims (strOf b) = some payload)
+    (halg : (jidx payload "_sd_alg").asStr = some "sha-256")
+    (hcnf : jget? payload "cnf" = none)
+    (hr : restoreAll (rt.env "sha-256") payload strs = .ok (c, ps)) :
+    Holder.presentation rt (assemble jwt strs) = .ok { sdJwt := jwt, paths := ps } ∧
+    Holder.build rt { sdJwt := jwt, paths := ps } R none nonce now =
+      .ok (assemble jwt (keptDisclosures ps R), none) :=
+  holder_presentation_build rt jwt strs header payload c ps R a b sig nonce now hj hs hseg hclaims halg hcnf hr
